@@ -207,6 +207,25 @@ def run(ctx):
         p = subprocess.run(["java", "-cp", jd, "com.github.tschoonj.xraylib.JHarness", "--methods"], stdout=subprocess.PIPE, stderr=subprocess.PIPE)
         jm = {l.split()[0] for l in p.stdout.decode().split("\n") if l.strip()}
         fns = sorted(n for n in desc if n in jm)
+        if cfg == "B":
+            # public static fields of the Java class that carry the name of a C macro must carry its value (ints exactly, reals to 1e-12): this is
+            # the run-time counterpart of C20's static reading, and the only one for constants that travel through xraylib.dat
+            pf = subprocess.run(["java", "-cp", jd, "com.github.tschoonj.xraylib.JHarness", "--fields"], stdout=subprocess.PIPE, stderr=subprocess.PIPE)
+            nf = 0
+            for l in pf.stdout.decode().split("\n"):
+                w = l.split()
+                if len(w) != 3 or w[0] not in h.val:
+                    continue
+                nf += 1
+                ctx.stats.ev()
+                cv = h.val[w[0]]
+                jv = int(w[2]) if w[1] == "int" else float.fromhex(w[2])
+                ok = (jv == cv) if (w[1] == "int" and isinstance(cv, int)) else (abs(jv - cv) <= 1e-12 * max(abs(jv), abs(cv)))
+                if not ok:
+                    ctx.stats.violation("constant-differs:" + w[0], dict(config=cfg, constant=w[0], java_type=w[1]), cv, jv)
+            ctx.stats.cls("java_constants_compared", nf)
+            if pf.returncode != 0 or nf < 100:
+                ctx.stats.violation("harness-failed", dict(config=cfg, what="--fields"), "field dump of Xraylib", pf.stderr.decode("utf-8", "replace")[-800:])
         if listed is None:
             listed = True
             ctx.extra["c_functions_without_java_method"] = sorted(n for n in desc if n not in jm)
